@@ -24,6 +24,7 @@ EXPLANATION = (
 EXPLANATION += " R15.17: a `:=` target inside a comprehension is not local to the comprehension; the containing scope's visitor collects it."
 EXPLANATION += " R15.18: in the scope visitors every path through the handler of a def / class stores the definition under its own name."
 EXPLANATION += " R15.19: a nonlocal name is filed under the result of a transitive search of the enclosing scopes (lookup), not of one scope's own table."
+EXPLANATION += " R15.16: the comprehension scope seeds its table from what its parent propagates to nested scopes (nothing for a class body), never from all names of the parent."
 ASSUMPTIONS = [
     "handler summaries are flow-insensitive; an unknown idiom makes a field count as reached (under-approximation of gaps)",
     "the oracle tables BINDS/TARGET_FIELDS/SCOPES/REDIRECTS in sa/grammar.py state the language reference",
@@ -606,40 +607,37 @@ def sibling_search_rule(ctx, res, rule: str) -> None:
 
 
 def comprehension_sees_parent_rule(ctx, res, rule: str) -> None:
-    """(shared C15 / C01) A comprehension's first iterable is evaluated in the scope the comprehension is written in -- a
-    class body included -- and rope's enclosing-scope lookup SKIPS class scopes (R01.1).  The comprehension scope therefore
-    takes the names of its parent scope into its own table, whatever kind of scope the parent is: the statement that
-    seeds `self.names` from `self.parent.get_names()` is not conditional on the parent's kind."""
+    """(shared C15 / C01 / C02) What a comprehension sees of the scope it is written in.  Its FIRST iterable is evaluated in that scope (a class
+    body included) -- the name finder moves there before it evaluates (R01.18).  Everything else -- the element, the conditions, the
+    later iterables -- is a nested scope: it sees what the enclosing scope PROPAGATES to nested scopes, which for a class body is
+    nothing (`x = 1; class C: x = 2; z = [x for _ in range(3)]` gives `[1, 1, 1]`).  If the comprehension scope seeds its own table
+    from its parent at all, it seeds it from `get_propagated_names()`; seeding it from `get_names()` makes class attributes visible in
+    the element and the conditions."""
     from ..cfg import CFG
     idx = ctx.idx
     f = idx.need_func("rope.base.pyscopes.ComprehensionScope._visit_comprehension")
     cfg = CFG(f.node)
-    seeds = []
+    n = 0
     for nd in cfg.nodes:
         if nd.kind != "stmt" or nd.ast is None:
             continue
-        parent_names = [c for c in calls_in(nd.ast) if call_name(c) == "get_names" and isinstance(c.func, ast.Attribute)
-                        and is_self_attr(c.func.value, "parent")]
-        if not parent_names:
-            continue
+        took = [c for c in calls_in(nd.ast) if call_name(c) in ("get_names", "get_propagated_names", "_get_names") and isinstance(c.func, ast.Attribute)
+                and is_self_attr(c.func.value, "parent")]
         into_names = (isinstance(nd.ast, ast.Assign) and any(is_self_attr(t, "names") for t in nd.ast.targets)) or any(
             isinstance(c.func, ast.Attribute) and c.func.attr == "update" and is_self_attr(c.func.value, "names") for c in calls_in(nd.ast))
-        if into_names:
-            seeds.append(nd)
-    if not seeds:
-        res.add(rule, "ComprehensionScope._visit_comprehension|parent-names", False, f.where,
-                "the comprehension scope no longer takes the names of its parent scope into its own table: a class attribute used as the iterable of a "
-                "comprehension in the class body is invisible (enclosing lookup skips class scopes), so renaming the attribute leaves that use behind",
-                function=f.qualname)
-        return
-    for k, nd in enumerate(seeds, 1):
-        kind_tests = [t for t, pol in cfg.guards(nd.id) if isinstance(t, ast.Call) and call_name(t) == "isinstance"]
-        ok = not kind_tests
-        res.add(rule, f"ComprehensionScope._visit_comprehension|parent-names#{k}", ok, f"{f.unit.rel}:{nd.lineno}",
-                "the parent's names are taken over whatever kind of scope the parent is" if ok else
-                f"the parent's names are taken over only when `{ast.unparse(kind_tests[0])}`: for a comprehension written directly in a CLASS body the class "
-                "attributes are not in its table, and the enclosing lookup skips class scopes -- `doubled = [i * 2 for i in items]` no longer resolves `items` "
-                "to the class attribute, rename leaves it behind (NameError or a module global of the same name)", function=f.qualname)
+        if not took or not into_names:
+            continue
+        n += 1
+        # all names of the parent are acceptable only where the parent is known to be another comprehension (its targets belong to the same expression)
+        whole = [c for c in took if call_name(c) != "get_propagated_names"]
+        among_comprehensions = any(pol and isinstance(t, ast.Call) and call_name(t) == "isinstance" and "Comprehension" in ast.unparse(t) for t, pol in cfg.guards(nd.id))
+        ok = not whole or among_comprehensions
+        res.add(rule, f"ComprehensionScope._visit_comprehension|parent-names#{n}", ok, f"{f.unit.rel}:{nd.lineno}",
+                "the comprehension scope takes over what its parent propagates to nested scopes" if ok else
+                f"`{ast.unparse(nd.ast)[:70]}` copies ALL names of the parent scope into the comprehension's table, class attributes included: in `x = 1; class C: x = 2; "
+                "z = [x for _ in range(3)]` the element resolves to C.x although the interpreter reads the module's x -- Rename of either `x` produces a program that "
+                "raises NameError", function=f.qualname)
+    res.analysed[f"{rule}:seeds of the comprehension table from the parent"] = n
 
 
 def walrus_in_comprehension_rule(ctx, res, rule: str) -> None:
@@ -747,3 +745,18 @@ def nonlocal_is_searched_outwards_rule(ctx, res, rule: str) -> None:
                     "wrapper(): nonlocal attempts`) is not found, the name is missing from wrapper's table although the interpreter's symbol table has it, and lookup() gives a "
                     "fresh local instead of retry's variable", function=m.qualname)
     res.floor(rule, "stores of nonlocal names", n, 1)
+    # a class body is no enclosing scope of its methods: before the search, the scope it starts from is moved past scopes of kind "Class"
+    for q in dict.fromkeys(SCOPE_VISITORS.values()):
+        m = idx.find_method(q, "_Nonlocal")
+        if m is None or m.qualname + "#c" in seen:
+            continue
+        seen.add(m.qualname + "#c")
+        node = common.inlined(idx, m)
+        skips = any(isinstance(lp, (ast.While, ast.If)) and any(isinstance(c, ast.Constant) and c.value == "Class" for c in ast.walk(lp.test))
+                    and any(isinstance(a, ast.Assign) and isinstance(a.value, ast.Attribute) and a.value.attr == "parent" for a in ast.walk(lp))
+                    for lp in walk_local(node)) or any(call_name(c) in ("get_enclosing_function_scope", "_enclosing_function") for c in calls_in(node))
+        res.add(rule, f"{m.cls.name}._Nonlocal|class-bodies-are-stepped-over", skips, m.where,
+                "the search for the binding starts past the class scopes around the function" if skips else
+                "the search for the binding of a nonlocal name starts in the scope around the function even when that is a CLASS body: in `def outer(): x = 1; class K: x = 'attr'; "
+                "def m(self): nonlocal x` the class attribute is filed under m's `x` -- Rename of outer's `x` leaves `nonlocal x` behind (SyntaxError: no binding for nonlocal "
+                "'x' found), and lookup('x') from m disagrees with the interpreter's symbol table", function=m.qualname)
